@@ -36,7 +36,7 @@ LStart ==
   /\ Commit(F, StartResult(F))
   /\ UNCHANGED <<net, inj, dup, frn, hist, got>>
 
-Step(m) == IF Ignored(F, m) THEN UNCHANGED pvars ELSE Commit(F, AcceptResult(F, m, FALSE))
+Step(m) == IF Ignored(F, m) THEN UNCHANGED pvars ELSE Commit(F, AcceptResult(F, m, NoFlags))
 
 Item(sl, kind) == [from |-> sl[1], rd |-> sl[2], b |-> sl[3], kind |-> kind]
 
